@@ -1364,6 +1364,31 @@ func ruleInitializingProvenance(rule string) func(*Ctx) {
 							"initializing=true is passed to "+fn.Name()+" outside the creation of a fresh root: replayed names of existing content are then stored without normalisation, so equivalent spellings stop resolving and entries added later vanish after a rebuild")
 					default:
 						own := false
+						// the flag carried in a parameter struct (`target.initializing`): every store to that field
+						// must itself pass the caller's flag on (or be the constant false)
+						if fv := selField(info, arg); fv != nil && fv.Name() == "initializing" {
+							stores := c.storesTo(fv)
+							own = len(stores) > 0
+							for _, st := range stores {
+								sinfo := st.In.Pkg.TypesInfo
+								okStore := false
+								if st.Value != nil {
+									if tv := sinfo.Types[st.Value]; tv.Value != nil && tv.Value.String() == "false" {
+										okStore = true
+									}
+									if o := objOfIdent(sinfo, st.Value); o != nil {
+										for g := st.In; g != nil; g = g.Outer {
+											if pv := paramVar(g, "initializing"); pv != nil && types.Object(pv) == o {
+												okStore = true
+											}
+										}
+									}
+								}
+								if !okStore {
+									own = false
+								}
+							}
+						}
 						if o := objOfIdent(info, arg); o != nil {
 							for g := f; g != nil; g = g.Outer {
 								if pv := paramVar(g, "initializing"); pv != nil && types.Object(pv) == o {
@@ -2261,7 +2286,33 @@ func ruleFetchErrorPropagated(rule string) func(*Ctx) {
 					continue
 				}
 				n++
-				c.verdictIf(errorReturned(f, cs.Call), rule, f, fmt.Sprintf("Fetch#%d", n), cs.Call.Pos(), "a failing member (e.g. a content signature mismatch) ends the restore with that error",
+				// ... and unconditionally: the error branch contains no way out other than returning the error (no
+				// `continue`/`break` for "harmless" errors - io.EOF from a forged size is not proof of an empty entry)
+				escapes := false
+				walkOwn(f.Body(), func(nd ast.Node) {
+					is, ok := nd.(*ast.IfStmt)
+					if !ok {
+						return
+					}
+					as, ok := is.Init.(*ast.AssignStmt)
+					if !ok || len(as.Rhs) != 1 || ast.Unparen(as.Rhs[0]) != ast.Expr(cs.Call) {
+						return
+					}
+					ast.Inspect(is.Body, func(m ast.Node) bool {
+						switch x := m.(type) {
+						case *ast.FuncLit:
+							return false
+						case *ast.BranchStmt:
+							escapes = true
+						case *ast.ReturnStmt:
+							if returnsNil(f.Pkg.TypesInfo, x) {
+								escapes = true
+							}
+						}
+						return true
+					})
+				})
+				c.verdictIf(errorReturned(f, cs.Call) && !escapes, rule, f, fmt.Sprintf("Fetch#%d", n), cs.Call.Pos(), "a failing member (e.g. a content signature mismatch) ends the restore with that error",
 					"the error of recovery.Fetch is not returned immediately and unconditionally: a later successful member overwrites it, so a restore that delivered altered content reports success")
 			}
 		}
